@@ -75,3 +75,29 @@ impl AwakeFlag {
         self.0.fetch_or(NOTIFIED, Ordering::AcqRel) != 0
     }
 }
+
+/// Forwarding wrapper around the private awake flag, for the verification
+/// harness only.
+#[cfg(compio_verif)]
+#[derive(Debug)]
+pub struct VerifAwakeFlag(AwakeFlag);
+
+#[cfg(compio_verif)]
+#[allow(missing_docs, clippy::new_without_default)]
+impl VerifAwakeFlag {
+    pub fn new() -> Self {
+        Self(AwakeFlag::new())
+    }
+
+    pub fn set(&self) {
+        self.0.set()
+    }
+
+    pub fn reset(&self) -> bool {
+        self.0.reset()
+    }
+
+    pub fn wake(&self) -> bool {
+        self.0.wake()
+    }
+}
